@@ -19,7 +19,8 @@ def record_table(cfg, rng, limit):
             sim = hw.getSimulator()
         except Exception as e:
             return None, 'RAISED getSimulator: %s: %s' % (type(e).__name__, e)
-        vecs, full = library.vectors(cfg['iw'], rng, limit)
+        # many-input configurations: boundary, one-hot / one-cold and a few hundred random vectors are enough
+        vecs, full = library.vectors(cfg['iw'], rng, limit if len(cfg['iw']) < 7 else min(limit, 500))
         rows = []
         for v in vecs:
             for w, x in zip(ins, v):
